@@ -20,6 +20,8 @@ mod c10;
 mod c13;
 mod c20;
 mod c19;
+mod gen_typed;
+mod c03;
 
 use out::Out;
 
@@ -75,6 +77,7 @@ fn main() {
                 "c19" => c19::run(&args, &mut out),
                 "c19h" => c19::run_histories(&args, &mut out),
                 "c19cli" => c19::run_cli(&args, &mut out),
+                "c03" => c03::run(&args, &mut out),
                 s => { eprintln!("unknown stream {s}"); std::process::exit(2); }
             }
             out.write(&args.out);
